@@ -10,7 +10,7 @@ import (
 
 func init() {
 	register("C13", propMeta{
-		Explanation: "E-PANIC + E-GUARD. O-1/O-2: over every repository function reachable from the untrusted session-description entry points (util.DeserializeSessionDescription, util.SerializeSessionDescription, util.StripLocalAddresses, proxy/lib.remoteIPFromSDP) no explicit panic, log.Fatal/os.Exit, or single-value type assertion that is not discharged (dominating comma-ok of the same value, container callback tables) exists, and every constant index into a regexp submatch result is within the pattern's capture groups and behind a != nil test. O-3: in every caller, the *SessionDescription returned by a (pointer, error) call is dereferenced only through the err == nil edge of that call. These are necessary conditions of 'never panic': each violating construct is a concrete crash path for some input. Added after the second seeding round: O-5 in every client/proxy function returning (pointer, error) that feeds a description parameter to a fallible call, no return reachable from that call's failure edge yields (nil, possibly-nil error); O-6 no function of common/util keeps package-level mutable state (a shared buffer/encoder for serialising descriptions).",
+		Explanation: "E-PANIC + E-GUARD. O-1/O-2: over every repository function reachable from the untrusted session-description entry points (util.DeserializeSessionDescription, util.SerializeSessionDescription, util.StripLocalAddresses, proxy/lib.remoteIPFromSDP) no explicit panic, log.Fatal/os.Exit, or single-value type assertion that is not discharged (dominating comma-ok of the same value, container callback tables) exists, and every constant index into a regexp submatch result is within the pattern's capture groups and behind a != nil test. O-3: in every caller, the *SessionDescription returned by a (pointer, error) call is dereferenced only through the err == nil edge of that call. These are necessary conditions of 'never panic': each violating construct is a concrete crash path for some input. Added after the second seeding round: O-5 in every client/proxy function returning (pointer, error) that feeds a description parameter to a fallible call, no return reachable from that call's failure edge yields (nil, possibly-nil error); O-6 no function of common/util keeps package-level mutable state (a shared buffer/encoder for serialising descriptions). Added after the third seeding round: O-2b a constant index is used only behind a length test of the same slice; O-3c a pointer that can be nil on an edge where the accompanying error is nil (shadowed err, error of an earlier call) is not dereferenced or passed on; O-5 DeserializeSessionDescription has no (nil, nil) return.",
 		NotDecided:  "panics inside third-party parsers (pion/sdp, pion/ice, encoding/json) - trusted base; the serialise/deserialise round-trip equality (value-level); variable-index slice accesses.",
 		Assumptions: []string{"third-party and standard-library callees do not panic on any input", "pion: RemoteDescription()/LocalDescription() are non-nil after a successful Set*Description"},
 	}, runC13)
@@ -35,6 +35,7 @@ func runC13(c *Ctx) {
 	}
 	reached := c.checkTerminators("O-1 no termination construct on the untrusted SDP path", entries, nil)
 	c.checkConstIndexes("O-2 constant indexes into submatch/split results", reached)
+	c.checkConstIndexGuards("O-2b constant indexes into slices are behind a length-establishing edge", reached)
 
 	// O-3: callers use the deserialised description only after the error check.
 	var scope []*ssa.Function
@@ -51,6 +52,7 @@ func runC13(c *Ctx) {
 	c.ifaceResults = false
 	c.checkSDPSchema()
 	c.checkRejectionHasError("O-5 a rejected description is reported as an error")
+	c.checkNilPhiDerefs("O-3c a pointer that is nil on some path is not dereferenced there", p.FnsIn("client/lib", "proxy/lib", "common/util"))
 	c.checkNoSharedState("O-6 the description codec keeps no shared mutable state", "common/util", p.FnsIn("common/util"))
 	c.checkResultUse("O-3 description used only after its error check", scope, func(call *ssa.Call) bool {
 		if c.Thorough {
@@ -199,6 +201,25 @@ func reflectTag(tag, key string) string {
 func (c *Ctx) checkRejectionHasError(rule string) {
 	p := c.P
 	nFn, nCalls := 0, 0
+	// the deserialiser itself: every return yields a description or a non-nil error (callers test the
+	// error and then dereference the description)
+	if des := p.Fn("common/util", "DeserializeSessionDescription"); des != nil {
+		okAll := true
+		var where *ssa.Return
+		for _, r := range returnsOf(des) {
+			if len(r.Results) == 2 && isNilConst(retVal(r, 0)) && retMayBeNil(r, 1) {
+				okAll = false
+				where = r
+			}
+		}
+		pos := p.Pos(des.Pos())
+		if where != nil {
+			pos = p.instrPos(where)
+		}
+		c.check(okAll, rule, "DeserializeSessionDescription never returns (nil, nil)", pos, "", "a return yields no description together with an error that may be nil (a stale err variable): the caller's error test passes and it dereferences nil")
+	} else {
+		c.undecided(rule, "common/util.DeserializeSessionDescription", "-", "anchor does not resolve")
+	}
 	for _, fn := range p.FnsIn("client/lib", "proxy/lib") {
 		res := fn.Signature.Results()
 		ei := errResultIndex(fn.Signature)
